@@ -179,6 +179,18 @@ Section Correct.
     rewrite G1, H1, rev_app_distr, app_assoc. reflexivity.
   Qed.
 
+  (* when the program stops (exit), only the outputs, the input position and the arrays are compared: the
+     stack of the spec state is whatever it was at the exit *)
+  Definition hpost (st st' : state) (outs : list (Z * Z)) : Prop :=
+    out_rev st' = rev outs ++ out_rev st /\ input st' = input st /\ ncons st' = ncons st /\ garrs st' = garrs st.
+  Lemma post_hpost st st' o : post st st' o -> hpost st st' o.
+  Proof. intros (H1 & H2 & H3 & H4 & _). exact (conj H1 (conj H2 (conj H3 H4))). Qed.
+  Lemma post_hpost_trans a b c o1 o2 : post a b o1 -> hpost b c o2 -> hpost a c (o1 ++ o2).
+  Proof.
+    intros (H1 & H2 & H3 & H4 & _) (G1 & G2 & G3 & G4). repeat split; try congruence.
+    rewrite G1, H1, rev_app_distr, app_assoc. reflexivity.
+  Qed.
+
   Lemma in_mem_range a : in_mem a = true -> 0 <= a < MEMW.
   Proof. unfold in_mem. intros H. apply andb_prop in H. destruct H as [H1 H2]. apply Z.leb_le in H1. apply Z.ltb_lt in H2. lia. Qed.
   Lemma in_mem_wrap a : in_mem a = true -> wrap a = a.
@@ -341,7 +353,7 @@ Section Correct.
     | Ret (Returned v) st' =>
         exists outs z b' m', v = Vint z /\ in_int z = true /\
           runs inp (mk pos a b 0 m) (map wr_ev outs) inp (mk (lab exitl) (z mod W) b' 0 m') /\ Rel st' m' /\ post st st' outs /\ frame_only m m'
-    | Halt c st' => exists outs, exits inp (mk pos a b 0 m) (map wr_ev outs) inp (c mod W) /\ post st st' outs
+    | Halt c st' => exists outs, exits inp (mk pos a b 0 m) (map wr_ev outs) inp (c mod W) /\ hpost st st' outs
     | Fail _ => True
     end.
 
@@ -355,7 +367,8 @@ Section Correct.
     - intros (o & a' & b' & m' & H1 & H2 & H3 & H4). exists o, a', b', m'. exact (conj H1 (conj H2 (conj (post_start _ _ _ _ Hs H3) H4))).
     - intros (o & z & b' & m' & H0 & H0' & H1 & H2 & H3 & H4). exists o, z, b', m'.
       exact (conj H0 (conj H0' (conj H1 (conj H2 (conj (post_start _ _ _ _ Hs H3) H4))))).
-    - intros (o & H1 & H2). exists o. exact (conj H1 (post_start _ _ _ _ Hs H2)).
+    - intros (o & H1 & H2). exists o. split; [exact H1|]. destruct Hs as (_ & _ & Ha & Ho & Hi & Hn).
+      destruct H2 as (G1 & G2 & G3 & G4). unfold hpost. repeat split; congruence.
   Qed.
 
   Notation cs' := (cs pinfo venv pool size nslots off0 og exitl).
@@ -375,7 +388,7 @@ Section Correct.
     - intros (o & z & b' & m' & H0 & H0' & H1 & H2 & H3 & H4). exists (o1 ++ o), z, b', m'. rewrite map_app.
       exact (conj H0 (conj H0' (conj (runs_trans _ _ _ _ _ _ _ _ Hr H1) (conj H2 (conj (post_trans _ _ _ _ _ Hp H3) (frame_only_trans _ _ _ Hfo H4)))))).
     - intros (o & H1 & H2). exists (o1 ++ o). rewrite map_app.
-      exact (conj (runs_exits _ _ _ _ _ _ _ _ Hr H1) (post_trans _ _ _ _ _ Hp H2)).
+      exact (conj (runs_exits _ _ _ _ _ _ _ _ Hr H1) (post_hpost_trans _ _ _ _ _ Hp H2)).
   Qed.
 
   Lemma result_ok_after_taus st r m m1 pos p1 nxt a b a1 b1 inp :
@@ -485,7 +498,7 @@ Section Correct.
       | Ret _ st' => exists outs a' b' m',
           runs inp (mk (lab (pf_entry pi)) link b 0 m) (map wr_ev outs) inp (mk link a' b' 0 m') /\
           Rel st' m' /\ post st st' outs /\ frame_only m m'
-      | Halt c st' => exists outs, exits inp (mk (lab (pf_entry pi)) link b 0 m) (map wr_ev outs) inp (c mod W) /\ post st st' outs
+      | Halt c st' => exists outs, exits inp (mk (lab (pf_entry pi)) link b 0 m) (map wr_ev outs) inp (c mod W) /\ hpost st st' outs
       | Fail _ => True
       end.
 
@@ -583,7 +596,7 @@ Section Correct.
       assert (Hin2 : in_mem (wrap (rd m2 1 + 2)) = true) by (rewrite H12, (in_mem_wrap _ Sin); exact Sin).
       pose proof (exec_svc_exit Cm lab m2 p3 nxt sp inp Hi4 HC2 Hin2) as T4.
       rewrite H12, (in_mem_wrap _ Sin) in T4. unfold m2 in T4 at 2. rewrite rd_wr_same in T4.
-      exists []. split; [|apply post_refl]. cbn [map]. change (0 mod W) with 0.
+      exists []. split; [|apply post_hpost, post_refl]. cbn [map]. change (0 mod W) with 0.
       eapply taus_exits; [exact T1|]. eapply taus_exits; [exact T2|]. eapply taus_exits; [exact T3|]. exact T4.
     - (* return e *)
       destruct (cge' e n) as [[c n1]|] eqn:Ec; [|discriminate]. cbn [obind] in Hcs. inversion Hcs; subst code n'.
@@ -823,7 +836,7 @@ Section Correct.
         cbn [do_sys int_of bind rcase result_ok].
         exists []. split.
         * cbn [map]. eapply taus_exits; [exact T1|]. eapply taus_exits; [exact T2|]. eapply taus_exits; [exact T3|]. exact T4.
-        * apply post_same. eapply same_store_trans; [exact S0|]. eapply same_store_trans; [exact Hss | exact S1].
+        * apply post_hpost, post_same. eapply same_store_trans; [exact S0|]. eapply same_store_trans; [exact Hss | exact S1].
       + (* put: 1(e, stream) *)
         destruct args as [|e [|es [|? ?]]]; try discriminate.
         destruct (4 <=? og) eqn:Eog; [|discriminate]. apply Z.leb_le in Eog.
